@@ -39,7 +39,9 @@ type sweepEnv struct {
 
 // ---- class tables ------------------------------------------------------------------------------
 // ADDR: 0 empty, 1 malformed, 2 valid & absent, 3 base account with key, 4 pool owner (base, no key), 5 continuous vesting, 6 blocked module account,
-//       7 owner of two matured pools of 5*10^18 each (their sum exceeds MaxInt64)
+//
+//	7 owner of two matured pools of 5*10^18 each (their sum exceeds MaxInt64)
+//
 // INT : 0 nil, 1 negative, 2 zero, 3 small positive, 4 above MaxInt64
 // NAME: 0 empty, 1 existing, 2 unknown
 // DUR : 0 zero, 1 negative, 2 positive
@@ -138,7 +140,9 @@ func newSweepEnv(ta *TestApp) (*sweepEnv, []sdk.AccAddress) {
 	ctx := base.WithBlockTime(now)
 	e := &sweepEnv{ta: ta, ctx: ctx, now: now, gov: appparams.GetAuthority()}
 	// ---- state: absent X, base B (with key), owner O (with pools), vesting V, blocked module M
-	mk := func(s string) sdk.AccAddress { return sdk.AccAddress([]byte(fmt.Sprintf("sweep-address-%06s", s))[:20]) }
+	mk := func(s string) sdk.AccAddress {
+		return sdk.AccAddress([]byte(fmt.Sprintf("sweep-address-%06s", s))[:20])
+	}
 	X, B, O, V, PO := mk("absent"), mk("base"), mk("owner"), mk("vest"), mk("bigown")
 	M := app.AccountKeeper.GetModuleAddress(authtypes.FeeCollectorName)
 	bacc := app.AccountKeeper.NewAccountWithAddress(ctx, B).(*authtypes.BaseAccount)
@@ -311,7 +315,10 @@ func runSweep(ta *TestApp, rep *Report) []string {
 	})
 	product([]int{2, 3, 3, 6}, func(v []int) { // 13 UpdateSubDistributorDestinationShareParam: authority, sd name, destination name, share
 		m := &distrtypes.MsgUpdateSubDistributorDestinationShareParam{Authority: auth(v[0]), SubDistributorName: name(v[1], "default_distributor"), DestinationName: name(v[2], "s1"), Share: decClass(v[3])}
-		add(13, v, m, func(c sdk.Context) error { _, err := dms.UpdateSubDistributorDestinationShareParam(w(c), m); return err })
+		add(13, v, m, func(c sdk.Context) error {
+			_, err := dms.UpdateSubDistributorDestinationShareParam(w(c), m)
+			return err
+		})
 	})
 	product([]int{2, 3, 6}, func(v []int) { // 14 UpdateSubDistributorBurnShareParam: authority, sd name, burn share
 		m := &distrtypes.MsgUpdateSubDistributorBurnShareParam{Authority: auth(v[0]), SubDistributorName: name(v[1], "default_distributor"), BurnShare: decClass(v[2])}
